@@ -57,7 +57,8 @@ Update(S, ev, n) ==
       prog == IF table.legacy THEN DoneProg ELSE ProgFor(ev)
       ltk == [i \in DOMAIN lt |-> lt[i].key]
       newT == [k \in {lt[i].key : i \in DOMAIN lt} |->
-                 NewTaskL(CORE, (lt[CHOOSE i \in DOMAIN lt : lt[i].key = k]).code, ZeroRegs, NoHandles, TRUE, TRUE)]
+                 [NewTaskL(CORE, (lt[CHOOSE i \in DOMAIN lt : lt[i].key = k]).code, ZeroRegs, NoHandles, TRUE, TRUE)
+                    EXCEPT !.script = TRUE]]
   IN
   [S EXCEPT !.tasks = (x :> NewTask(CORE, << HostI(prog, "id", "id") >>, ZeroRegs, NoHandles, TRUE)) @@ newT @@ @,
             !.ready = @ \cup {x} \cup DOMAIN newT,
